@@ -12,7 +12,7 @@ import (
 )
 
 func init() {
-	register("C08", "Structural clauses behind schedule independence, decided on all paths: every SendMsg of the transfer goes through the mutex-holding wrapper (field provenance + lockset), all RecvMsg sites of an end sit in one goroutine started once, the shared maps/counters are only touched with their mutex held (must-hold lockset), writer results are published before the channel that signals them is closed, and every struct field mutated after construction is classified (lock / publish / confined / reasoned). What the decoder stores in a message never aliases its input (the transport buffer the next RecvMsg refills while other goroutines still read the previous stat): Unmarshal delegates to the copying UnmarshalVT and UnmarshalVTUnsafe has no caller. Does not decide absence of data races in general nor equality of outcomes across schedules.", runC08)
+	register("C08", "Structural clauses behind schedule independence, decided on all paths: every SendMsg of the transfer goes through the mutex-holding wrapper (field provenance + lockset), all RecvMsg sites of an end sit in one goroutine started once, the shared maps/counters are only touched with their mutex held (must-hold lockset), writer results are published before the channel that signals them is closed, and every struct field mutated after construction is classified (lock / publish / confined / reasoned). What the decoder stores in a message never aliases its input (the transport buffer the next RecvMsg refills while other goroutines still read the previous stat): Unmarshal delegates to the copying UnmarshalVT and UnmarshalVTUnsafe has no caller. The ids both ends key their maps by decode exactly: every varint loop of the generated decoders masks with 0x7F, steps by 7, refuses a shift of 64 and ends below 0x80 (shared with C20). Does not decide absence of data races in general nor equality of outcomes across schedules.", runC08)
 }
 
 // lockTable: (struct, field) -> mutex field, frozen from the code (DESIGN R08.3).
@@ -47,6 +47,9 @@ func runC08(c *Ctx) {
 	// RecvMsg refills while the diff and writer goroutines still read the
 	// previous stat (shared with C20)
 	r20_2(c, "R08.11")
+	// the ids both ends key their maps by are the ids sent: varint decoding
+	// of the packet header is exact (shared with C20)
+	r20_7(c, "R08.12")
 }
 
 // R08.1: all sends are serialised.
